@@ -1,5 +1,44 @@
-(** C02 -- placeholder while the proofs are built *)
-From RL Require Import Model.Decode.
-Theorem C02_placeholder : m_decode strict_opts [] = Val (Err [IncompleteFlags], []).
-Proof. reflexivity. Qed.
-Print Assumptions C02_placeholder.
+(** C02 -- The decoder never reads outside its input, whatever reader backs it.
+    (a) Every unchecked request lies within the octets that remain: the list
+        reader is the contract monitor ([UB] on a short unchecked read, [Panic] on
+        an out-of-range skip / sub-reader), and no run produces either.
+    (b) For EVERY implementation [I] of the Reader trait that honours the contract
+        ([Conforms I]: each operation, when its precondition holds, returns the
+        octets the list reader returns and a state representing the new suffix;
+        nothing is assumed outside the precondition) the decoder returns the same
+        result and leaves the reader at the same place. *)
+From RL Require Import Model.Decode Model.Reader Proofs.ReaderParam Proofs.Totality.
+
+Theorem C02_no_contract_violation : forall o b, bytes_ok b = true ->
+  m_decode o b <> UB /\ (forall k, m_decode o b <> Panic k) /\ m_decode o b <> OutOfFuel.
+Proof. exact decode_no_ub. Qed.
+
+Theorem C02_program_parametric : forall I (C : Conforms I) A (p : prog A) r a l',
+  run p (repr C r) = Val (a, l') ->
+  exists r', grun I p r = Val (a, r') /\ repr C r' = l'.
+Proof. exact grun_conforms. Qed.
+
+Theorem C02_reader_parametric : forall I (C : Conforms I) o r, bytes_ok (repr C r) = true ->
+  exists x r', m_decode o (repr C r) = Val x /\
+               grun I (msg_read o) r = Val (fst x, r') /\ repr C r' = snd x.
+Proof. exact decode_any_reader. Qed.
+
+Theorem C02_avps_parametric : forall I (C : Conforms I) r, bytes_ok (repr C r) = true ->
+  exists x r', m_avps (repr C r) = Val x /\
+               grun I avps_read r = Val (fst x, r') /\ repr C r' = snd x.
+Proof. exact avps_any_reader. Qed.
+
+Theorem C02_type_parametric : forall I (C : Conforms I) t r,
+  exists x r', m_decode_avp t (repr C r) = Val x /\
+               grun I (decode_avp t) r = Val (fst x, r') /\ repr C r' = snd x.
+Proof. exact type_any_reader. Qed.
+
+(** non-vacuity: [Conforms] is inhabited *)
+Example C02_conforms_inhabited : Conforms ListReader.
+Proof. exact ListReader_conforms. Qed.
+
+Print Assumptions C02_no_contract_violation.
+Print Assumptions C02_program_parametric.
+Print Assumptions C02_reader_parametric.
+Print Assumptions C02_avps_parametric.
+Print Assumptions C02_type_parametric.
